@@ -291,6 +291,19 @@ def job_unary(ctx, k, part):
     Mb_neg = _routes_batch(-S)
     conj = S * np.array([1.0, -1, -1, -1])
     Mb_conj = _routes_batch(conj)
+    # short batches of every small size (an N = 3 or N = 4 batch of 4-vectors / 3x3 matrices is a square block): rows = the rows of the long batch
+    for nb in (1, 2, 3, 4, 5):
+        for off in (0, max(0, len(S) // 2 - 2)):
+            if off + nb > len(S):
+                continue
+            try:
+                small = _routes_batch(S[off:off + nb])
+            except Exception as ex:
+                ctx.fail('batch routes raise on a short batch', f'{name}#k{k} N={nb} offset={off}', repr(ex)[:160], 'N matrices')
+                continue
+            for rname in Mb:
+                ok = small[rname].shape == (nb, 3, 3)
+                ctx.close(small[rname] if ok else np.zeros(1), Mb[rname][off:off + nb], TOL, f'{rname}: an N-row batch gives the rows of the long batch (N = 1 ... 5)', f'{name}#k{k} N={nb} offset={off}')
     for rname in Mb:
         for i in range(len(S)):
             key = f'{name}#k{k} q={i}'
